@@ -3,6 +3,7 @@
 package geom
 
 func init() {
+	vfHarnesses["C18_closed_line_rotation"] = vfhC18ClosedLineRotation
 	vfHarnesses["C18_point"] = vfhC18Point
 	vfHarnesses["C18_linestring"] = vfhC18LineString
 	vfHarnesses["C18_ignore_order_multipoint"] = vfhC18IgnoreOrderMultiPoint
@@ -204,5 +205,47 @@ func vfhC18ToleranceMatching() {
 	} else {
 		vfReach("different")
 	}
+	vfReach("end")
+}
+
+// IgnoreOrder identifies the start vertex of a RING only: a closed LineString
+// that crosses or touches itself is not a ring, so writing it from another
+// vertex gives a different geometry, while reversing it (the direction of a
+// LineString) does not; for a simple closed LineString both are identified.
+// Also inside a MultiLineString and a GeometryCollection.
+func vfhC18ClosedLineRotation() {
+	var wkt string
+	ring := false
+	switch vfInt("curve", 0, 3) {
+	case 0:
+		wkt, ring = "LINESTRING(0 0,1 1,1 0,0 1,0 0)", false // bow-tie
+	case 1:
+		wkt, ring = "LINESTRING(0 0,4 0,4 4,2 0,2 4,0 4,0 0)", false // touches itself at (2 0)
+	case 2:
+		wkt, ring = "LINESTRING(0 0,4 0,4 4,0 4,0 0)", true
+	default:
+		wkt, ring = "LINESTRING(0 0,4 0,5 3,2 5,-1 3,0 0)", true
+	}
+	base, err := UnmarshalWKT(wkt)
+	vfAssert(err == nil, "curve parses")
+	rot := vfInt("rot", 0, 3)
+	rev := vfBool("reverse")
+	other := vfRewriteRings(base, rot, rev)
+	sameSeq := rot == 0
+	want := ring || sameSeq
+	wrap := vfInt("wrap", 0, 2)
+	a, b := base, other
+	switch wrap {
+	case 1:
+		a = NewMultiLineString([]LineString{base.MustAsLineString()}).AsGeometry()
+		b = NewMultiLineString([]LineString{other.MustAsLineString()}).AsGeometry()
+	case 2:
+		a = NewGeometryCollection([]Geometry{base, NewPointXY(9, 9).AsGeometry()}).AsGeometry()
+		b = NewGeometryCollection([]Geometry{NewPointXY(9, 9).AsGeometry(), other}).AsGeometry()
+	}
+	vfAssert(base.MustAsLineString().IsRing() == ring, "the curve is a ring iff it is simple")
+	vfAssert(ExactEquals(a, b, IgnoreOrder) == want, "IgnoreOrder identifies another start vertex only for rings (the direction always)")
+	vfAssert(ExactEquals(b, a, IgnoreOrder) == want, "symmetric")
+	vfAssert(ExactEquals(a, b) == (sameSeq && !rev && wrap != 2), "without the option only the identical spelling is equal")
 	vfReach("end")
 }
